@@ -155,7 +155,7 @@ def run_unit(prop, u, tier, scratch, keep=False):
             out.append(d)
         res['results'] = out
         # ---- thorough tier: second back end must agree obligation by obligation (guards against a solver defect)
-        if tier == 'thorough' and not u.get('solver_flag') and u.get('cross_check', True) and os.environ.get('VERIF_NO_CROSSCHECK') != '1':
+        if tier == 'thorough' and not u.get('solver_flag') and u.get('cross_check', not u.get('bounded')) and os.environ.get('VERIF_NO_CROSSCHECK') != '1':
             second = 'minisat2' if 'cadical' in ' '.join(u.get('cbmc_flags', [])) else 'cadical'
             cmd2 = [c for c in cmd if c not in ('--trace',)]
             if '--sat-solver' in cmd2:
